@@ -144,6 +144,11 @@ def mark_bool_contexts(tree):
         if isinstance(e, ast.BoolOp):
             for v in e.values:
                 mark(v)
+        elif isinstance(e, ast.IfExp):
+            mark(e.body)
+            mark(e.orelse)
+        elif isinstance(e, ast.Call) and isinstance(e.func, ast.Name) and e.func.id == "bool" and len(e.args) == 1 and not e.keywords:
+            mark(e.args[0])
     for n in ast.walk(tree):
         if isinstance(n, (ast.If, ast.While, ast.IfExp, ast.Assert)):
             mark(n.test)
@@ -284,6 +289,18 @@ class _Canon(ast.NodeTransformer):
         self.generic_visit(n)
         if isinstance(n.test, ast.Constant) and isinstance(n.test.value, bool) and not self.pattern:
             return n.body if n.test.value else n.orelse      # (a helper expanded with a constant flag argument)
+        # C25: where only the truth value counts, `X if c else False` is `c and X` and `bool(X)` is X
+        if getattr(n, "_boolctx", False) and not self.pattern and isinstance(n.orelse, ast.Constant) and n.orelse.value is False:
+            body = n.body
+            while isinstance(body, ast.Call) and isinstance(body.func, ast.Name) and body.func.id == "bool" and len(body.args) == 1 and not body.keywords:
+                body = body.args[0]
+            vals = (list(n.test.values) if isinstance(n.test, ast.BoolOp) and isinstance(n.test.op, ast.And) else [n.test]) + (
+                list(body.values) if isinstance(body, ast.BoolOp) and isinstance(body.op, ast.And) else [body])
+            new = ast.copy_location(ast.BoolOp(op=ast.And(), values=vals), n)
+            new._boolctx = True
+            for v_ in vals:
+                v_._boolctx = True
+            return new
         t, sw = self._positive(n.test)
         if sw:
             n.test, n.body, n.orelse = t, n.orelse, n.body
